@@ -1,5 +1,61 @@
-"""props — per-property configuration of ./check (jobs of the correspondence harness,
-volumes per tier, evidence rule text, partial/assumption notes)."""
+"""props — per-property configuration of ./check: jobs of the correspondence harness, volumes per
+tier, the projection of observables each property compares, evidence rule text, notes."""
+
+OP = {"open_file": "1224", "read_critical": "1225", "read_cd": "1226", "read_file": "1227", "create": "1228",
+      "write": "1229", "open_dir": "122a", "dir_entry": "122b", "delete": "122c", "mkdir": "122d", "rmdir": "122e",
+      "dir_entry_v2": "122f", "stat": "1230", "dir_size": "1231", "read_dir": "1232"}
+
+
+def sess_project(keep_ops=None, world=False, held=False, leak=False):
+    """projection of a SESS observation 'steps;closed=..;leak=..;world=..' onto what a property is about"""
+    keep = None if keep_ops is None else set(OP[o] for o in keep_ops)
+
+    def f(fields, obs):
+        steps, closed, lk, wd = obs.split(";")
+        mode = fields[4] if len(fields) > 4 else "blob"
+        ops = fields[5].split(",") if len(fields) > 5 else []
+        out = []
+        if mode == "blob":
+            if keep is None:
+                out.append(steps)
+        else:
+            for i, p in enumerate(steps.split(",")):
+                if "/" not in p:
+                    out.append(p)
+                    continue
+                d, h = p.rsplit("/", 1)
+                op = ops[i] if i < len(ops) else "?"
+                item = ""
+                if keep is None or op in keep:
+                    item = op + ":" + d
+                if held:
+                    item += "/" + h
+                out.append(item)
+        res = ",".join(out) + ";" + closed
+        if leak:
+            res += ";" + lk
+        if world:
+            res += ";" + wd
+        return res
+    return f
+
+
+SESS_RULE = ("random worlds (depth<=3, boundary-sized files, long/non-ASCII names, siblings of the root with secrets, CD images) x "
+             "sessions of 1..200 requests over all 15 opcodes with decorated/hostile paths and boundary (offset,limit) pairs, "
+             "plus truncated, bit-flipped and random byte streams; non-trivial = at least 3 requests or a malformed stream; "
+             "distinct by hash of (config, world, stream)")
+
+SESS_ASSUME = ["the OS filesystem is seen through a double that enumerates directories in byte order, freezes the clock of "
+               "mutations and reports 4096 as the size of directories (harness/dfs.go); the model assumes the same",
+               "no symlinks inside the modelled world (symlink cases are judged by the direct oracle only)",
+               "strings.ToLower is modelled on ASCII only"]
+
+BASE_PARTIAL = []
+
+
+def sess_job(quick, thorough, **proj):
+    return {"cmd": "sess", "quick": quick, "thorough": thorough, "project": sess_project(**proj), "timeout": 3000}
+
 
 PROPS = {
     "C14": {
@@ -15,6 +71,44 @@ PROPS = {
                       "every prefix length and every 4/16-byte probe, Contains decides exactly the documented numeric set and everything that is not a "
                       "documented form is rejected. Proved over a byte-level model of pkg/iprange tied to the code by a differential on the current tree.",
         "level_note": "net.ParseIP and strconv.Atoi are section variables (two hypotheses on ParseIP, checked per case).",
+    },
+    "C02": {
+        "jobs": [sess_job(140, 2500, keep_ops=["open_file", "read_file", "read_critical"])],
+        "rule": SESS_RULE, "assumptions": SESS_ASSUME,
+        "partial": ["generated images and decrypted views as the opened object are covered by C09/C10 (reader contract); "
+                    "sparse files past 4 GiB are exercised by the direct oracle only"],
+        "level_text": "Theorems C02_open/C02_read/C02_critical/C02_interleave/C02_slice_spec over the session model: for every content, offset and "
+                      "limit the ordinary read announces the exact count and sends exactly the bytes [off, min(off+n,size)), the critical read sends them raw "
+                      "and ends the connection after a correct prefix when short; other requests never disturb the opened object.",
+    },
+    "C03": {
+        "jobs": [sess_job(140, 2500)],
+        "rule": SESS_RULE, "assumptions": SESS_ASSUME, "partial": [],
+        "level_text": "Theorems C03_consumes (parse inverts the documented wire format and consumes exactly 16+announced bytes), C03_stream (the byte-level "
+                      "server refines the request-level semantics for every request sequence, any state, any unfinished tail), C03_shape (every response has the "
+                      "documented layout) and C03_malformed, over the model of pkg/proto + pkg/server + internal/handler.",
+    },
+    "C05": {
+        "jobs": [sess_job(140, 2500, keep_ops=["create", "write", "delete", "mkdir", "rmdir"], world=True)],
+        "rule": SESS_RULE, "assumptions": SESS_ASSUME,
+        "partial": ["exactness of uploads and of delete/mkdir/rmdir effects is decided by the differential on the full tree snapshot and the upload oracle; "
+                    "the Coq theorems cover the read-only half and purity of non-mutating requests"],
+        "level_text": "Theorems C05_readonly (for every byte stream the world after a connection equals the world before when writing is disabled), "
+                      "C05_refused, C05_reads_pure over the session model.",
+    },
+    "C13": {
+        "jobs": [sess_job(140, 2500, keep_ops=[], held=True, leak=True)],
+        "rule": SESS_RULE, "assumptions": SESS_ASSUME,
+        "partial": ["goroutine termination, kernel descriptor accounting and hangs are runtime behaviour: watched by the harness (disconnect signal, "
+                    "handle ledger of the filesystem double), not part of the theorem"],
+        "level_text": "Theorems C13_owned (ledger invariant preserved by every handler on every exit path) and C13_released (for every input stream and "
+                      "world, every handle opened for the connection is closed when it ends), over the session model with explicit open/close counters.",
+    },
+    "C17": {
+        "jobs": [sess_job(100, 1500, keep_ops=["open_file", "read_cd"])],
+        "rule": SESS_RULE, "assumptions": SESS_ASSUME, "partial": [],
+        "level_text": "Theorems C17_args, C17_read (exact user-data slices for every sector size, image, start and count in range), C17_short, C17_detect "
+                      "(the detected size is the first candidate whose 16*S+24 position carries either signature; candidates/magics regenerated from the source).",
     },
 }
 
